@@ -10,7 +10,7 @@ from . import util
 from .util import F64
 
 EXACT = ["exact", "kiss", "sgpr", "multitask", "fixednoise", "rff", "gridk", "matern_ard", "sumprod", "linearmean"]
-VARIATIONAL = ["svgp", "usvgp", "svgp_mf", "svgp_nat", "svgp_delta", "lmc", "indep_mt", "svgp_trilnat", "gridvar", "orthdec"]
+VARIATIONAL = ["svgp", "usvgp", "svgp_mf", "svgp_nat", "svgp_delta", "lmc", "indep_mt", "svgp_trilnat", "gridvar", "orthdec", "ciq", "batchdec"]
 
 
 def data(seed, which, fam="exact", d=1):
@@ -81,6 +81,10 @@ class ExactModel(gpytorch.models.ExactGP):
         elif fam == "sgpr":
             g = util.gen(seed, "Z")
             self.covar_module = K.InducingPointKernel(base, inducing_points=util.rand(g, 3, d), likelihood=lik)
+        elif fam == "sgpr2":  # two inducing-point kernels: two added loss terms registered under the same local name
+            g = util.gen(seed, "Z")
+            self.covar_module = (K.InducingPointKernel(base, inducing_points=util.rand(g, 3, d), likelihood=lik)
+                                 + K.InducingPointKernel(K.MaternKernel(nu=1.5), inducing_points=util.rand(g, 2, d), likelihood=lik))
         elif fam in ("multitask", "multitask_r0", "multitask_notask"):
             self.mean_module = gpytorch.means.MultitaskMean(gpytorch.means.ConstantMean(batch_shape=bs), num_tasks=2)
             self.covar_module = K.MultitaskKernel(K.RBFKernel(batch_shape=bs), num_tasks=2, rank=1, batch_shape=bs)
@@ -128,7 +132,8 @@ class VarModel(gpytorch.models.ApproximateGP):
                 "svgp_mf": V.MeanFieldVariationalDistribution, "svgp_nat": V.NaturalVariationalDistribution,
                 "svgp_delta": V.DeltaVariationalDistribution, "lmc": V.CholeskyVariationalDistribution,
                 "indep_mt": V.CholeskyVariationalDistribution, "svgp_trilnat": V.TrilNaturalVariationalDistribution,
-                "gridvar": V.CholeskyVariationalDistribution, "orthdec": V.DeltaVariationalDistribution}[fam]
+                "gridvar": V.CholeskyVariationalDistribution, "orthdec": V.DeltaVariationalDistribution,
+                "ciq": V.CholeskyVariationalDistribution, "batchdec": V.CholeskyVariationalDistribution}[fam]
         if fam == "gridvar":
             vd = dist(8)
             strat = V.GridInterpolationVariationalStrategy(self, grid_size=8, grid_bounds=[(-0.6, 1.6)], variational_distribution=vd)
@@ -137,7 +142,8 @@ class VarModel(gpytorch.models.ApproximateGP):
             strat = V.OrthogonallyDecoupledVariationalStrategy(cov_strat, util.rand(g, 4, d), dist(4))
         else:
             vd = dist(M, batch_shape=bs)
-            base = V.UnwhitenedVariationalStrategy if fam == "usvgp" else V.VariationalStrategy
+            base = {"usvgp": V.UnwhitenedVariationalStrategy, "ciq": V.CiqVariationalStrategy,
+                    "batchdec": V.BatchDecoupledVariationalStrategy}.get(fam, V.VariationalStrategy)
             strat = base(self, Z, vd, learn_inducing_locations=True)
             if fam == "lmc":
                 strat = V.LMCVariationalStrategy(strat, num_tasks=2, num_latents=2, latent_dim=-1)
